@@ -26,6 +26,9 @@ Proof.
   match goal with |- context [if ?c then _ else _] => destruct c eqn:? end; lia.
 Qed.
 
+Lemma bridge_update_predict_restores_cutoff : gen_update_predict_restores_cutoff = true.
+Proof. reflexivity. Qed.
+
 Lemma bridge_fit_rejects_empty : gen_fit_allow_empty = false /\ gen_update_allow_empty = true.
 Proof. split; reflexivity. Qed.
 
